@@ -18,7 +18,10 @@ RULE = ("'history': a RuleBasedStateMachine builds a pool of equilibria over the
         "with it.  Non-trivial history = >= 3 arithmetic operations including a negative scale (or -e / a "
         "subtraction) and an addition/subtraction in which some species cancels fully or partly; distinct by history "
         "digest.  'eliminate': generated pairs sharing a species with net coefficients +-1..+-12 (same or opposite "
-        "sides, possibly on both sides of one operand).  'as_reactions': generated equilibria with one rate given.")
+        "sides, possibly on both sides of one operand).  'as_reactions': generated equilibria with one rate given, as a "
+        "plain/symbolic number or (units=default_units) as a quantity of dimension conc**(1-order)/time in mixed "
+        "concentration/time units with K a plain number or a quantity in molar**(nb-nf); non-trivial = nb != nf (or "
+        "a species on both sides).")
 ASSUMPTIONS = ["symbolic constants are judged by substituting distinct primes >= 23 for the symbols and comparing exact "
                "rationals; rational constants only have prime factors <= 19, so equal values imply equal monomials",
                "float constants: relative tolerance 1e-10 on the product (|exponents| <= 48, <= 16 operations, each "
@@ -501,7 +504,140 @@ def as_reactions_cases(draw):
     return {"eq": spec, "given": draw(st.sampled_from(["kf", "kb"])), "rate": rate}
 
 
+# --- with units: own SI table (exact factors to the base units mol, m, s), keyed by quantities' unit names -----------
+UNIT_RTOL = 1e-12       # float magnitude * float unit factors, a handful of multiplications/divisions/pows: << 1e-13
+
+SI_TABLE = {            # name -> (exact factor, {base: exponent})
+    "mole": (Fraction(1), {"mol": 1}),
+    "meter": (Fraction(1), {"m": 1}),
+    "decimetre": (Fraction(1, 10), {"m": 1}),
+    "decimeter": (Fraction(1, 10), {"m": 1}),
+    "centimeter": (Fraction(1, 100), {"m": 1}),
+    "liter": (Fraction(1, 1000), {"m": 3}),
+    "molar": (Fraction(1000), {"mol": 1, "m": -3}),
+    "millimolar": (Fraction(1), {"mol": 1, "m": -3}),
+    "micromolar": (Fraction(1, 1000), {"mol": 1, "m": -3}),
+    "second": (Fraction(1), {"s": 1}),
+    "millisecond": (Fraction(1, 1000), {"s": 1}),
+    "minute": (Fraction(60), {"s": 1}),
+    "hour": (Fraction(3600), {"s": 1}),
+    "dimensionless": (Fraction(1), {}),
+}
+CONC_UNITS = ["molar", "mol/m3", "mol/dm3", "millimolar", "mol/L", "micromolar", "mol/cm3"]
+TIME_UNITS = ["second", "hour", "millisecond", "minute"]
+C0_SI = Fraction(1000)  # the standard concentration 1 molar in mol/m3
+
+
+def _conc_unit(u, name):
+    return {"molar": lambda: u.molar, "mol/m3": lambda: u.mol / u.m ** 3, "mol/dm3": lambda: u.mol / u.dm ** 3,
+            "millimolar": lambda: u.millimolar, "mol/L": lambda: u.mol / u.liter, "micromolar": lambda: u.micromolar,
+            "mol/cm3": lambda: u.mol / u.cm ** 3}[name]()
+
+
+def _si_of(q):
+    """(exact SI magnitude as Fraction, {base: exponent}) of a scalar quantity, or None if a unit is not in my table."""
+    mag = Fraction(float(q.magnitude))
+    dims = {}
+    for unit, ex in q.dimensionality.items():
+        ent = SI_TABLE.get(getattr(unit, "name", None))
+        if ent is None or int(ex) != ex:
+            return None
+        ex = int(ex)
+        mag *= ent[0] ** ex
+        for b, e in ent[1].items():
+            dims[b] = dims.get(b, 0) + e * ex
+    return mag, {b: e for b, e in dims.items() if e}
+
+
+def _rate_dims(order):
+    d = {"mol": 1 - order, "m": -3 * (1 - order), "s": -1}
+    return {b: e for b, e in d.items() if e}
+
+
+@st.composite
+def as_reactions_unit_cases(draw):
+    spec = draw(operand_specs("python"))
+    return {"eq": spec, "given": draw(st.sampled_from(["kf", "kb"])),
+            "units": {"mag": draw(st.sampled_from([1.0, 2.5, 1.31e11, 3e-7, 0.1, 7.0])),
+                      "conc": draw(st.sampled_from(CONC_UNITS)), "time": draw(st.sampled_from(TIME_UNITS)),
+                      "K_quantity": draw(st.sampled_from([False, False, False, False, True])),
+                      "new_name": draw(st.sampled_from([None, "split"])),
+                      "kwargs": draw(st.sampled_from(["none", "checks_empty", "data", "none"]))}}
+
+
+def check_as_reactions_units(case, ctx):
+    """as_reactions(kf=q | kb=q, units=default_units): kf/kb == K * (1 molar)**(nb - nf), both rates of the dimension
+    conc**(1-order)/time; everything read back through SI_TABLE (no chempy unit conversion)."""
+    from chempy.units import default_units as u
+    Equilibrium = _Eq()
+    spec, un = case["eq"], case["units"]
+    nf, nb = sum(spec["reac"].values()), sum(spec["prod"].values())
+    dn = nb - nf
+    kval, kexact = _make_constant(spec["K"], 0)
+    ctx.label("units:yes", "given:" + case["given"], "K:" + spec["K"][0], "conc:" + un["conc"], "time:" + un["time"],
+              "kwargs:" + un["kwargs"], "delta_n:" + ("0" if dn == 0 else "nonzero"))
+    ctx.nontrivial(dn != 0)
+    if un["K_quantity"]:
+        ctx.label("K_as_quantity:" + ("dimensionless" if dn == 0 else "molar**dn"))
+        kval = float(kval) * (u.molar ** dn if dn else u.dimensionless)
+    eq = Equilibrium(dict(spec["reac"]), dict(spec["prod"]), kval, name="eqname")
+    order = nf if case["given"] == "kf" else nb
+    rate = un["mag"] * _conc_unit(u, un["conc"]) ** (1 - order) / getattr(u, un["time"])
+    kw = {case["given"]: rate, "units": u}
+    if un["new_name"] is not None:
+        kw["new_name"] = un["new_name"]
+    if un["kwargs"] == "checks_empty":
+        kw["checks"] = ()
+    elif un["kwargs"] == "data":
+        kw["data"] = {"origin": "c11"}
+    res = sut(lambda: eq.as_reactions(**kw))
+    if is_err(res):
+        ctx.fail("as_reactions_raises", error=repr(res), delta_n=dn)
+        return
+    if not (isinstance(res, tuple) and len(res) == 2):
+        ctx.fail("as_reactions_not_a_pair", got=short(repr(res), 200))
+        return
+    fw, bw = res
+    if dict(fw.reac) != spec["reac"] or dict(fw.prod) != spec["prod"]:
+        ctx.fail("forward_stoichiometry_differs", got=[dict(fw.reac), dict(fw.prod)], expected=[spec["reac"], spec["prod"]])
+        return
+    if dict(bw.reac) != spec["prod"] or dict(bw.prod) != spec["reac"]:
+        ctx.fail("backward_stoichiometry_not_swapped", got=[dict(bw.reac), dict(bw.prod)],
+                 expected=[spec["prod"], spec["reac"]])
+        return
+    si = []
+    for name, r, o in (("kf", fw, nf), ("kb", bw, nb)):
+        p = r.param
+        if not hasattr(p, "dimensionality"):
+            ctx.fail("rate_not_a_quantity", which=name, got=short(repr(p), 120))
+            return
+        v = _si_of(p)
+        if v is None:
+            ctx.fail("rate_unit_not_understood", which=name, got=str(p)[:120])
+            return
+        if v[1] != _rate_dims(o):
+            ctx.fail("rate_dimension_inconsistent_with_order", which=name, got=str(p)[:120], dims=v[1],
+                     expected=_rate_dims(o), delta_n=dn)
+            return
+        si.append(v[0])
+    given_si = Fraction(un["mag"]) * _si_of(1.0 * _conc_unit(u, un["conc"]))[0] ** (1 - order) \
+        / SI_TABLE[un["time"]][0]
+    got_given = si[0] if case["given"] == "kf" else si[1]
+    if not abs(got_given - given_si) <= Fraction(UNIT_RTOL) * abs(given_si):
+        ctx.fail("given_rate_not_kept", got=float(got_given), expected=float(given_si))
+        return
+    if si[1] == 0:
+        ctx.fail("backward_rate_zero", kf=str(fw.param)[:80], kb=str(bw.param)[:80])
+        return
+    expected = kexact * C0_SI ** dn          # K * (1 molar)**(nb-nf) in (mol/m3)**(nb-nf)
+    if not abs(si[0] / si[1] - expected) <= Fraction(UNIT_RTOL) * abs(expected):
+        ctx.fail("kf_over_kb_differs_from_K", kf=str(fw.param)[:80], kb=str(bw.param)[:80], delta_n=dn,
+                 ratio_SI=float(si[0] / si[1]), expected_SI=float(expected))
+
+
 def check_as_reactions(case, ctx):
+    if case.get("units"):
+        return check_as_reactions_units(case, ctx)
     Equilibrium = _Eq()
     spec = case["eq"]
     kval, kexact = _make_constant(spec["K"], 0)
@@ -557,7 +693,11 @@ SUBCHECKS = [
     SubCheck("eliminate", check_eliminate, strategy=eliminate_cases(), quick=1500, thorough=60000,
              rule="pairs sharing species A with net coefficients +-1..+-12; multipliers non-zero ints, m1 v1 + m2 v2 = 0, "
                   "m1*e1 + m2*e2 lists A on neither side, is netted, and has constant K1^m1 K2^m2"),
-    SubCheck("as_reactions", check_as_reactions, strategy=as_reactions_cases(), quick=1000, thorough=30000,
-             rule="as_reactions(kf=x) / (kb=x): stoichiometries kept / swapped, given rate kept, kf/kb == K",
-             tolerances={"float_ratio_rel": RATE_RTOL}),
+    SubCheck("as_reactions", check_as_reactions, strategy=st.one_of(as_reactions_cases(), as_reactions_unit_cases()),
+             quick=1800, thorough=40000,
+             rule="as_reactions(kf=x) / (kb=x): stoichiometries kept / swapped, given rate kept, kf/kb == K; with "
+                  "units=default_units and the rate a quantity (mixed concentration/time units, K plain or a quantity): "
+                  "both rates of dimension conc**(1-order)/time and kf/kb == K * (1 molar)**(nb-nf), read back through an "
+                  "own SI table",
+             tolerances={"float_ratio_rel": RATE_RTOL, "units_ratio_rel": UNIT_RTOL}),
 ]
